@@ -14,6 +14,7 @@ import os
 import random
 import re
 import shutil
+import time
 import warnings
 from pathlib import Path
 
@@ -302,11 +303,19 @@ def canon_val(v, strict_float, problems):
     return ("other", repr(v))
 
 
+def canon_num(v):
+    """numbers by VALUE, exactly: 1000 == 1000.0, but an integer beyond 2**53 is not its rounded double"""
+    if isinstance(v, (int, np.integer)):
+        return int(v)
+    f = float(v)
+    return int(f) if (f == f and f not in (float("inf"), float("-inf")) and f.is_integer()) else f
+
+
 def canon_m(v):
     if isinstance(v, (bool, np.bool_)):
         return ("bool", bool(v))
     if isinstance(v, (int, float, np.integer, np.floating)):
-        return ("num", float(v))
+        return ("num", canon_num(v))
     if isinstance(v, str):
         return ("str", v)
     if isinstance(v, datetime.date):
@@ -320,7 +329,7 @@ def canon_meta(m, merge_loss=False):
     if merge_loss:
         d = {**d, **ld}
         ld = {}
-    pol = None if m.per_occurrence_limit is None else float(m.per_occurrence_limit)
+    pol = None if m.per_occurrence_limit is None else canon_num(m.per_occurrence_limit)
     return (m.risk_basis, m.country, m.currency, m.reinsurance_basis, m.loss_definition, pol,
             tuple(sorted(d.items())), tuple(sorted(ld.items())))
 
@@ -1361,6 +1370,118 @@ def hardening_stream(ctx, tmp):
     ctx.count(evaluations=n)
 
 
+# ============================================================================== large stream (family Q)
+def large_cases(thorough):
+    """big cases judged by the Python-side oracles only (no Coq literals: the theorems are size-independent, it is the
+    correspondence that samples).  Each entry: (name, how, builder); the builder is deterministic, so a replay only
+    records the name and the tier."""
+    from bermuda import Metadata, Triangle
+
+    B53 = 2 ** 53
+    out = []
+
+    def late_columns():
+        # > 10,000 cells; the first 10,000 in Triangle order (metadata, period, evaluation) lack the attribute, detail,
+        # loss detail and field that only the last slice carries
+        npd, nev = (310, 100) if thorough else (104, 100)
+        mA = Metadata()
+        mB = Metadata(country="US", details={"lob": "x", "n": 3}, loss_details={"cov": "y"})
+        cells = [mkc(ms(300 + p), me(300 + p), me(300 + p + j), {"paid_loss": float(p + j)}, mA) for p in range(npd) for j in range(nev)]
+        cells += [mkc(ms(300 + p), me(300 + p), me(300 + p + j), {"paid_loss": 1.0, "reported_loss": 2.0 + j}, mB) for p in range(3) for j in range(4)]
+        t = Triangle(cells)
+        first = t.cells[:10000]
+        assert len(t) > 10000 and all(c.metadata.country is None and "reported_loss" not in c.values for c in first)
+        return t
+    out.append(("late-columns-over-10000-cells", "csv", late_columns))
+
+    def many_metadata():
+        # > 2,100 (thorough > 4,200) distinct Metadata in one triangle, told apart only by integers beyond 2**53
+        n = 4300 if thorough else 2200
+        return Triangle([mkc(D(2020, 1, 1), D(2020, 3, 31), D(2020, 3, 31), {"paid_loss": float(i)},
+                             Metadata(per_occurrence_limit=B53 + 1, details={"id": B53 + 1 + 2 * i}, loss_details={"layer": 9007199254740993 + 10 * (i % 7)}))
+                         for i in range(n)])
+    out.append(("many-metadata-integers-beyond-2**53", "csv", many_metadata))
+
+    def big_limit():
+        return Triangle([mkc(D(2020, 1, 1), D(2020, 3, 31), D(2020, 3 * (j + 1), 30 if j else 31), {"paid_loss": 1.0 + i + j},
+                             Metadata(per_occurrence_limit=B53 + 1 + 2 * i, details={"n": -(B53 + 3)})) for i in range(2) for j in range(2)])
+    out.append(("limit-and-detail-beyond-2**53", "csv", big_limit))
+
+    def big_samples():
+        n = 100000 if thorough else 4500
+        base = np.arange(n, dtype=np.float64) / 8.0
+        two_d = np.asfortranarray(np.stack([base * 3.0, base + 0.5], axis=1))
+        return Triangle([mkc(D(2020, 1, 1), D(2020, 3, 31), D(2020, 3, 31), {"paid_loss": base[::-1], "reported_loss": two_d[:, 0]}),
+                         mkc(D(2020, 1, 1), D(2020, 3, 31), D(2020, 6, 30), {"paid_loss": two_d[:, 1], "reported_loss": np.arange(n, dtype=np.int64)[::-1]}),
+                         mkc(D(2020, 4, 1), D(2020, 6, 30), D(2020, 6, 30), {"paid_loss": base})])
+    out.append(("sample-arrays-4500+-reversed-and-fortran-views", "csv", big_samples))
+
+    def slices_256():
+        # 3,100+ cells, slice boundaries at multiples of 256 in Triangle order
+        sizes = [256, 512, 768, 1600]
+        cells = []
+        for si, n in enumerate(sizes):
+            m = Metadata(country=f"C{si}", details={"n": si})
+            cells += [mkc(ms(480 + k // 16), me(480 + k // 16), me(480 + k // 16 + k % 16), {"paid_loss": float(k), "reported_loss": k + 0.5}, m)
+                      for k in range(n)]
+        return Triangle(cells)
+    out.append(("3100-cells-slice-boundaries-at-256", "csv", slices_256))
+
+    def months_1100():
+        # > 1,024 distinct months, single slice
+        n = 4300 if thorough else 1100
+        return Triangle([mkc(ms(p), me(p), me(p + j), {"paid_loss": float(p + j)}) for p in range(n) for j in range(2)])
+    out.append(("more-than-1024-months", "grid:1", months_1100))
+
+    def rows_70():
+        # rows of 70 cells, 70+ distinct evaluation dates
+        return Triangle([mkc(ms(600 + 3 * p), me(602 + 3 * p), me(602 + 3 * p + j), {"paid_loss": float(p * 100 + j)}) for p in range(5) for j in range(70)])
+    out.append(("rows-of-70-cells-70-evaluation-dates", "grid:3", rows_70))
+    return out
+
+
+def run_large_case(name, thorough, tmp):
+    for n, how, build in large_cases(thorough):
+        if n == name:
+            t = build()
+            if how == "csv":
+                return csv_roundtrip_problems(t, tmp, "large")
+            res = int(how.split(":")[1])
+            return matrix_roundtrip_problems(t) + rich_matrix_problems(t) + array_explicit_problems(t, res)
+    return [f"large case {name} no longer exists"]
+
+
+def large_stream(ctx, tmp):
+    thorough = not ctx.quick
+    t00 = time.time()
+    for name, how, _ in large_cases(thorough):
+        t0 = time.time()
+        try:
+            probs = run_large_case(name, thorough, tmp)
+        except Exception as ex:  # noqa: BLE001
+            probs = [f"large case raised {type(ex).__name__}: {str(ex)[:120]}"]
+        ctx.hist("large:" + name)
+        ctx.log(f"large case {name}: {time.time() - t0:.1f}s, {len(probs)} problem(s)")
+        if probs:
+            ctx.violation("impl-violation", f"[LARGE/{name}] {probs[0][:600]}",
+                          {"kind": "large", "case": name, "thorough": thorough, "problems": [p_[:600] for p_ in probs[:3]]}, found_input=True)
+    # process-wide state (ring caches, pools): the earliest small cases must still hold AFTER the large work
+    for fam, name, thunk, cls in hardening_cases(tmp):
+        if cls is not None:
+            continue
+        try:
+            probs = thunk()
+        except Exception as ex:  # noqa: BLE001
+            probs = [f"case raised {type(ex).__name__}: {str(ex)[:120]}"]
+        if probs:
+            ctx.violation("impl-violation", f"[RECHECK after large work: HARD/{fam}/{name}] {probs[0]}",
+                          {"kind": "hardening", "family": fam, "case": name, "after_large": True, "problems": probs[:5]}, found_input=True)
+    ctx.count(evaluations=len(large_cases(thorough)) + 40)
+    ctx.notes.append("large stream (family Q): judged by the Python-side oracles only, no Coq literals (the theorems are "
+                     "size-independent; the correspondence samples); followed by a re-check of the small directed cases")
+    ctx.log(f"large stream: {time.time() - t00:.1f}s")
+
+
 # ============================================================================== coq case files
 def write_case_file(ctx, name, kind, recs):
     chk = {"F": ("fcase", "check_fcase"), "A": ("acase", "check_acase"), "M": ("mcase", "check_mcase")}[kind]
@@ -1566,6 +1687,7 @@ def run(ctx):
     # ---------------------------------------------------------------- 4. directed probes + verdicts
     directed_probes(ctx, tmp)
     hardening_stream(ctx, tmp)
+    large_stream(ctx, tmp)
     reported = 0
     for kind, t, info, problems in py_fail:
         cls = info.get("class") if isinstance(info.get("class"), dict) else None
@@ -1592,6 +1714,15 @@ def replay(ctx, data):
     warnings.filterwarnings("ignore")
     tmp = ctx.build / "replay_csv"
     tmp.mkdir(parents=True, exist_ok=True)
+    if data.get("kind") == "large":
+        probs = run_large_case(data["case"], bool(data.get("thorough")), tmp)
+        shutil.rmtree(tmp, ignore_errors=True)
+        print(f"large case {data['case']} (rebuilt by harness.c14.large_cases, thorough={bool(data.get('thorough'))})")
+        for p_ in probs:
+            print("PROPERTY FAILS:", p_[:400])
+        if not probs:
+            print("holds on this tree")
+        return 1 if probs else 0
     if data.get("kind") == "hardening":
         probs, _ = run_hardening_case(tmp, data["family"], data["case"])
         shutil.rmtree(tmp, ignore_errors=True)
